@@ -206,15 +206,15 @@ def describe_op(o):
     def val(v):
         t = v.get("t")
         if t in ("S", "B"):
-            return "%s'%s'" % ("" if t == "S" else "b", "".join(chr(c) if 32 <= c < 127 else "\\x%02x" % c for c in v["v"]))
+            return "%s'%s'" % ("" if t == "S" else "b", "".join(chr(c) if 32 <= c < 127 else "\\x%02x" % c for c in v["s" if t == "S" else "b"]))
         if t == "N":
-            n = v["v"]
+            n = v["n"]
             return ("-" if n.get("neg") else "") + ("".join(map(str, n.get("d", []))) or "0") + ("e%d" % n["e"] if n.get("e") else "")
         if t == "M":
-            return "{" + ",".join("%s:%s" % (k, val(x)) for k, x in sorted((v["v"] or {}).items())) + "}" if isinstance(v["v"], dict) else "{}"
+            return "{" + ",".join("%s:%s" % (k, val(x)) for k, x in sorted(v["m"].items())) + "}" if isinstance(v["m"], dict) else "{}"
         if t == "L":
-            return "[" + ",".join(val(x) for x in v["v"]) + "]"
-        return "%s(%s)" % (t, json.dumps(v.get("v")))
+            return "[" + ",".join(val(x) for x in v["l"]) + "]"
+        return json.dumps({k: x for k, x in v.items()}, sort_keys=True)
     def item(it):
         if not isinstance(it, dict):
             return "{}"
